@@ -22,6 +22,10 @@ pub struct Scenario {
     pub rayon_reps: usize,
     pub concurrent_callers: usize,
     pub repeat_renders: usize,
+    /// prefix lengths at which the partially loaded image is rendered with `render_loading_frame`
+    /// under every pool variant (the same bytes must give the same picture)
+    #[serde(default)]
+    pub partial_cuts: Vec<usize>,
 }
 
 pub fn generate(seed: u64, tier: Tier) -> Scenario {
@@ -40,6 +44,22 @@ pub fn generate(seed: u64, tier: Tier) -> Scenario {
     }
     let n = if tier == Tier::Quick { 6 } else { 32 };
     let fixture = case.shape == "fixture";
+    let len = case.bytes.len();
+    let mut partial_cuts: Vec<usize> = (0..if fixture { 2 } else { 4 })
+        .map(|_| {
+            if !case.structural.is_empty() && rng.chance(1, 2) {
+                // inside a section: between two structural offsets
+                let i = rng.below(case.structural.len() as u64) as usize;
+                let a = case.structural[i];
+                let b = case.structural.get(i + 1).copied().unwrap_or(len);
+                a + rng.below((b.saturating_sub(a)).max(1) as u64) as usize
+            } else {
+                rng.below(len as u64 + 1) as usize
+            }
+        })
+        .collect();
+    partial_cuts.sort_unstable();
+    partial_cuts.dedup();
     Scenario {
         case,
         faulted,
@@ -48,6 +68,7 @@ pub fn generate(seed: u64, tier: Tier) -> Scenario {
         rayon_reps: if tier == Tier::Quick { 2 } else { 5 },
         concurrent_callers: if fixture { 2 } else { rng.usize_in(2, 4) },
         repeat_renders: 3,
+        partial_cuts,
     }
 }
 
@@ -66,6 +87,23 @@ fn viol(seed: u64, sc: &Scenario, class: String, detail: String) -> Violation {
 
 fn load(bytes: &[u8], pool: JxlThreadPool) -> Result<JxlImage, String> {
     load_chunked(bytes, &ChunkSchedule::whole(bytes.len()), None, pool)
+}
+
+/// Feeds a prefix and renders the loading frame; `None` if the image does not initialise.
+fn partial_render(prefix: &[u8], pool: JxlThreadPool, permute: Option<&Arc<PermutePool>>) -> Option<RenderObs> {
+    let mut u = new_uninit(&LoadOpts { pool, tracker: None, force_wide: false });
+    if u.feed_bytes(prefix).is_err() {
+        return None;
+    }
+    let mut img = match u.try_init() {
+        Ok(jxl_oxide::InitializeResult::Initialized(i)) => i,
+        _ => return None,
+    };
+    let r = RenderObs::from_result(&img.render_loading_frame());
+    if let Some(p) = permute {
+        p.drain();
+    }
+    Some(r)
 }
 
 /// Same Ok/Err verdict, and bit-identical samples when Ok (the error *value* may differ:
@@ -200,8 +238,39 @@ pub fn execute(seed: u64, sc: &Scenario, stats: &mut Stats) -> Result<(), Violat
             stats.distinct_sig(&[&sc.case.shape, &"rayon", &n]);
         }
     }
+    // (e) partially loaded stream: the loading render must not depend on the pool either
+    for &cut in &sc.partial_cuts {
+        let prefix = &bytes[..cut.min(bytes.len())];
+        crate::harness::heartbeat("partial");
+        let reference = partial_render(prefix, JxlThreadPool::none(), None);
+        let mut variants: Vec<(String, Option<RenderObs>)> = Vec::new();
+        for &ps in sc.pool_seeds.iter().take(3) {
+            let pool = PermutePool::new(ps);
+            let r = partial_render(prefix, JxlThreadPool::verif(pool.clone() as Arc<dyn jxl_threadpool::verif::VerifPool>), Some(&pool));
+            stats.schedules.insert(pool.schedule_hash());
+            variants.push((format!("simulated schedule {ps}"), r));
+        }
+        for &n in &sc.rayon_sizes {
+            for rep in 0..sc.rayon_reps.max(2) {
+                variants.push((format!("{n}-thread rayon pool, repetition {rep}"), partial_render(prefix, JxlThreadPool::rayon(Some(n)), None)));
+            }
+        }
+        stats.fault("partial_load_render");
+        for (name, v) in variants {
+            let d = match (&reference, &v) {
+                (None, None) => None,
+                (Some(a), Some(b)) => same(a, b),
+                (a, b) => Some(format!("initialised: {} vs {}", a.is_some(), b.is_some())),
+            };
+            if let Some(d) = d {
+                let mode = if name.starts_with("simulated") { "simulated_schedule" } else { "real_pool" };
+                return Err(viol(seed, sc, format!("partial_load_differs:{mode}"), format!("stream cut at {cut} of {}: loading render without a pool vs {name}: {d}", bytes.len())));
+            }
+        }
+        stats.distinct_sig(&[&sc.case.shape, &"partial", &(cut * 8 / bytes.len().max(1))]);
+    }
     stats.sample(serde_json::json!({
-        "shape": sc.case.shape, "len": bytes.len(), "faulted": sc.faulted, "simulated_schedules": sc.pool_seeds.len(),
+        "shape": sc.case.shape, "len": bytes.len(), "faulted": sc.faulted, "simulated_schedules": sc.pool_seeds.len(), "partial_cuts": sc.partial_cuts,
         "rayon_sizes": sc.rayon_sizes, "concurrent_callers": sc.concurrent_callers,
         "reference": reference.renders.iter().map(|r| r.short()).collect::<Vec<_>>(),
     }));
@@ -210,6 +279,21 @@ pub fn execute(seed: u64, sc: &Scenario, stats: &mut Stats) -> Result<(), Violat
 
 pub fn minimise(sc: &Scenario, still: &dyn Fn(&Scenario) -> bool) -> Scenario {
     let mut best = sc.clone();
+    for i in 0..best.partial_cuts.len() {
+        let mut c = best.clone();
+        c.partial_cuts = vec![best.partial_cuts[i]];
+        if still(&c) {
+            best = c;
+            break;
+        }
+    }
+    {
+        let mut c = best.clone();
+        c.partial_cuts.clear();
+        if still(&c) {
+            best = c;
+        }
+    }
     // only the simulated schedules (replayable part), one seed
     let mut c = best.clone();
     c.rayon_sizes.clear();
